@@ -37,7 +37,7 @@ TelOne(S, o) ==
         ob == S.obs[o]
         capacity == cfg.arrays - S.tel.use
     IN IF S.pend # "" THEN S
-       ELSE IF ob.status = "WAITING" /\ c.est * K <= S.now /\ c.demand <= capacity
+       ELSE IF ob.status = "WAITING" /\ c.estT <= S.now /\ c.demand <= capacity
        THEN IF c.dur < 1 \/ cfg.hotCap <= ObsVol(o) THEN Raise(S, "RuntimeError")
             ELSE LET cok == OCfg(o).ing + S.sch.pend <= cfg.maxIngest /\ CluOK0(S, o)
                             /\ S.sch.prov + c.ing <= cfg.maxIngest
@@ -269,9 +269,9 @@ BufTick(S) ==
                /\ ColdHasCapacity(S, S.obs[SeqLast(S.buf.hotStored)].data)
         S1 == IF h2c THEN Spawn([S0 EXCEPT !.nmove = @ + 1], H2cPid(S0.nmove + 1), Loc0) ELSE S0
         c2h == ~skip /\ ~crash
-               /\ (S.buf.hotFree + S.buf.dataLeft) * 10 < 6 * cfg.hotCap
+               /\ Below60(S.buf.hotFree + S.buf.dataLeft, cfg.hotCap)
                /\ S.buf.coldStored # <<>>
-               /\ (HotUsed(S) + S.obs[SeqLast(S.buf.coldStored)].data) * 10 < 6 * cfg.hotCap
+               /\ Below60(HotUsed(S) + S.obs[SeqLast(S.buf.coldStored)].data, cfg.hotCap)
         S2 == IF c2h THEN Spawn([S1 EXCEPT !.nmove = @ + 1], C2hPid(S1.nmove + 1), Loc0) ELSE S1
     IN IF crash THEN Die(Raise(S0, "IndexError"), pid) ELSE Sleep(S2, pid, STEP)
 
